@@ -362,3 +362,7 @@ DESIGN_REF = "DESIGN.md section 4 (C10)"
 
 # ---- extended claim (session 3)
 LEVEL_TEXT = LEVEL_TEXT + " m4: the bytes read back from the freezer are decoded as a block in compatible mode (a frozen BlockV1 carries its extension as an extra field), get_block returns the view of that block and get_transaction_with_info the transaction at the recorded index together with the stored info."
+
+# ---- extended claim (session 4)
+LEVEL_TEXT = LEVEL_TEXT + ' m2: Freezer::freeze appends the heights from the frozen height up to the threshold contiguously and in order, each with the block fetched for that height, checks every parent hash against the previous tip, stops at the first missing block / stop flag / mismatch, and reports exactly the appended blocks.'
+LEVEL_NOTE = LEVEL_NOTE + ' Freeze loop: up to 3 heights per call.'
